@@ -20,7 +20,10 @@ FilesystemLock attributes — read for pruning only, never asserted on).
 
 Programs: once (`if lock(): unlock()`), retry (2 attempts), twice (two cycles), die (acquire, then
 the process dies holding the lock — a stale lock arises dynamically), rogue (calls `unlock()` without
-holding, swallowing the documented exception, then `once`).  Initial states: no lock / stale lock of
+holding, swallowing the documented exception, then `once`), daemon (the FilesystemLock object is
+constructed under a parent pid that then exits; the forked child — another, live pid — runs `once`
+on the inherited object), forkrogue (child forked from a live participant after that one built its
+lock object: `rogue` on the inherited object).  Initial states: no lock / stale lock of
 a dead pid / lock held by a live non-participant.
 
 Oracle: (1) the number of live processes between a True return of `lock()` and the completion of
@@ -56,7 +59,7 @@ LEVEL = "exploration"
 ENGINE = "E1-explore (local DFS over re-execution coroutines; E3 guard for containment)"
 TECHNIQUE = "runtime monitoring: at-most-one-holder invariant over every interleaving of the lock module's filesystem primitives"
 RULE = ("case = (configuration [1..3 processes, thorough also 4; program per process from once/retry/"
-        "twice/die/rogue; initial link none/stale/live-foreign], schedule of primitive calls).  ALL "
+        "twice/die/rogue/daemon/forkrogue; initial link none/stale/live-foreign], schedule of primitive calls).  ALL "
         "schedules of every configuration are enumerated (DFS, pruning on the full state); every "
         "state is checked and counted in `states`; distinct = (configuration, state) pairs, recorded "
         "for the first 4000 states of each configuration; the 4-process configurations are thorough only.")
@@ -72,6 +75,7 @@ READY = True
 
 PIDS = (101, 102, 103, 104)
 DEAD, FOREIGN = 999, 500
+PARENTS = (201, 202, 203, 204)  # pids of processes that built a lock object, forked and exited (never alive)
 NAME = None  # <scratch>/lock, set by Seams(); the link table is in memory, nothing is ever created there
 MAX_STEPS = 120
 DISTINCT_CAP = 4000  # (configuration, state) pairs recorded as distinct cases per configuration
@@ -123,7 +127,7 @@ class _OsProxy:
         return getattr(os, n)
 
     def getpid(self):
-        return PIDS[_CUR[1]]
+        return _CUR[0].curpid[_CUR[1]]
 
     def open(self, path, flags, mode=0o777, **kw):
         if isinstance(path, str) and path.startswith(NAME + "."):
@@ -213,6 +217,7 @@ class World:
         elif cfg["initial"] == "foreign":
             self.table[NAME] = str(FOREIGN)
             self.alive.add(FOREIGN)
+        self.curpid = list(PIDS[:n])  # what os.getpid() answers for each process right now (fork changes it)
         self.holders = set()
         self.flock = None          # process holding the breaker flock
         self.victims = {}          # proc -> trace index: live holders whose link a stale-breaker removed
@@ -232,6 +237,7 @@ class World:
         w = World(self.cfg, _clone=True)
         w.table = dict(self.table)
         w.alive = set(self.alive)
+        w.curpid = list(self.curpid)
         w.holders = set(self.holders)
         w.flock = self.flock
         w.victims = dict(self.victims)
@@ -253,6 +259,7 @@ class World:
         self.cursor = 0
         self.budget = budget
         self.suspending = False
+        self.curpid[i] = PIDS[i]
         self.live = not self.results[i] and budget == 0  # the very first run: everything is new
         self.api[i] = None
         try:
@@ -489,7 +496,32 @@ def p_rogue(w, i):
     _cycle(w, i, l)
 
 
-PROGRAMS = {"once": p_once, "retry": p_retry, "twice": p_twice, "die": p_die, "rogue": p_rogue}
+def p_daemon(w, i):
+    """The lock object is built, then the process daemonizes (fork, the parent exits) and the child
+    — a different, live pid — takes and releases the lock through the inherited object."""
+    w.curpid[i] = PARENTS[i]
+    l = w.FilesystemLock(NAME)
+    w.curpid[i] = PIDS[i]
+    _cycle(w, i, l)
+
+
+def p_forkrogue(w, i):
+    """A child forked from another live participant after that one built its lock object: it inherits
+    the object, calls unlock() without holding (must be refused), then competes normally."""
+    w.curpid[i] = PIDS[(i + 1) % w.n]
+    l = w.FilesystemLock(NAME)
+    w.curpid[i] = PIDS[i]
+    w.api[i] = "unlock"
+    try:
+        l.unlock()
+        w.event(i, "rogue-unlock-returned")
+    except (ValueError, OSError) as e:
+        w.event(i, "rogue-unlock-refused", exception=type(e).__name__)
+    w.api[i] = None
+    _cycle(w, i, l)
+
+
+PROGRAMS = {"daemon": p_daemon, "forkrogue": p_forkrogue, "once": p_once, "retry": p_retry, "twice": p_twice, "die": p_die, "rogue": p_rogue}
 
 
 # ---- exploration -----------------------------------------------------------------------------------
@@ -593,27 +625,36 @@ def explore(ctx, cfg, cfg_id, shard_depth=None):
     return nstates
 
 
+def _multisets(items, k, start=0):
+    if k == 0:
+        yield []
+        return
+    for a in range(start, len(items)):
+        for rest in _multisets(items, k - 1, a):
+            yield [items[a]] + rest
+
+
 def configs(tier):
     progs = ["once", "retry", "twice", "die", "rogue"]
+    forked = ["daemon", "forkrogue"]      # lock object built under another pid (fork in between)
     out = []
     for initial in ("none", "stale", "foreign"):
-        for p in progs:
+        for p in progs + forked:
             out.append({"programs": [p], "initial": initial})
-        for a in range(len(progs)):
-            for b in range(a, len(progs)):
-                out.append({"programs": [progs[a], progs[b]], "initial": initial})
-        for a in range(len(progs)):
-            for b in range(a, len(progs)):
-                for c in range(b, len(progs)):
-                    p3 = [progs[a], progs[b], progs[c]]
-                    out.append({"programs": p3, "initial": initial})
+        for p2 in _multisets(progs + forked, 2):
+            out.append({"programs": p2, "initial": initial})
+        for p3 in _multisets(progs, 3):
+            out.append({"programs": p3, "initial": initial})
+        pool = ["once", "die"] + forked if tier == "quick" else progs + forked
+        for p3 in _multisets(pool, 3):
+            if any(p in forked for p in p3):
+                out.append({"programs": p3, "initial": initial})
         if tier != "quick":
-            small = ["once", "die", "rogue", "retry"]
-            for a in range(len(small)):
-                for b in range(a, len(small)):
-                    for c in range(b, len(small)):
-                        for d in range(c, len(small)):
-                            out.append({"programs": [small[a], small[b], small[c], small[d]], "initial": initial})
+            for p4 in _multisets(["once", "die", "rogue", "retry"], 4):
+                out.append({"programs": p4, "initial": initial})
+            for p4 in _multisets(["once", "die"] + forked, 4):
+                if any(p in forked for p in p4):
+                    out.append({"programs": p4, "initial": initial})
     return out
 
 
